@@ -908,7 +908,7 @@ void NewPage(ShortInt Level, Boolean WithFF) {
 
 void WrLstLine(char const* Line) {
     int    LLength;
-    char   bbuf[2500];
+    char*  bbuf = NULL;
     String LLine;
     int    blen = 0, hlen, z, Start;
 
@@ -923,7 +923,11 @@ void WrLstLine(char const* Line) {
     } else {
         if ((PageWidth == 0) || ((strlen(Line) << 3) < PageWidth)) {
             LLength = 1;
+        } else if (!(bbuf = (char*)malloc((strlen(Line) << 3) + 1))) {
+            LLength = 1;
         } else {
+            /* a tab expands to at most eight blanks */
+
             blen = 0;
             for (z = 0; z < (int)strlen(Line); z++) {
                 if (Line[z] == Char_HT) {
@@ -961,6 +965,9 @@ void WrLstLine(char const* Line) {
                 }
                 Start += hlen;
             }
+        }
+        if (bbuf) {
+            free(bbuf);
         }
     }
 }
